@@ -130,6 +130,26 @@ unsafe fn region_ok(m: &BytesMut) {
         assert!(kani::mem::can_write_unaligned(core::ptr::slice_from_raw_parts_mut(m.ptr.as_ptr(), m.cap)));
     }
 }
+/// the representation invariant (I-bm-vec / I-bm-arc of DESIGN 4.3) holds for a handle on the allocation [base, base+V):
+/// this is what makes the single steps compose into histories of any length
+unsafe fn inv_bm(m: &BytesMut, g: &G) {
+    let p = m.ptr.as_ptr() as usize;
+    let b = g.base as usize;
+    assert!(m.len <= m.cap);
+    if m.kind() == KIND_VEC {
+        let off = m.get_vec_pos();
+        assert!(off <= MAX_VEC_POS);
+        assert!(p - off == b);
+        assert!(off + m.cap == V); // the capacity of the inline-Vec form reaches the end of the allocation
+    } else {
+        let sh = m.data;
+        assert!((sh as usize) & KIND_MASK == KIND_ARC);
+        assert!((*sh).vec.as_ptr() as usize == b && (*sh).vec.capacity() == V);
+        assert!(p >= b && p + m.cap <= b + V);
+        assert!((*sh).ref_count.load(Ordering::Relaxed) >= 1);
+    }
+}
+
 unsafe fn finish_arc(g: &G, live: usize) {
     // release ghost references: the count becomes the number of real handles the harness still holds
     set_cnt(g, live);
@@ -158,6 +178,37 @@ pub fn original_capacity_fns() {
     end_reached!();
 }
 
+// ================================================================================== base cases: the public constructors establish I-bm-vec
+// @h props=C01,C02,C04 tier=quick flags=leak group=step note=constructors_establish_the_invariant(with_capacity,from_slice,zeroed,Bytes->BytesMut_copy)
+#[kani::proof]
+#[kani::unwind(10)]
+pub fn ctor_base_cases() {
+    unsafe {
+        let which: u8 = kani::any();
+        kani::assume(which < 3);
+        let data: [u8; V] = kani::any();
+        let m = match which {
+            0 => {
+                let mut m = BytesMut::with_capacity(V);
+                m.extend_from_slice(&data[..3]);
+                m
+            }
+            1 => BytesMut::from(&data[..]),
+            _ => BytesMut::zeroed(V),
+        };
+        assert!(m.kind() == KIND_VEC && m.get_vec_pos() == 0);
+        assert!(m.cap == V && m.len <= m.cap);
+        assert!(kani::mem::can_write_unaligned(core::ptr::slice_from_raw_parts_mut(m.ptr.as_ptr(), m.cap)));
+        let repr = (m.data as usize & ORIGINAL_CAPACITY_MASK) >> ORIGINAL_CAPACITY_OFFSET;
+        assert!(repr == original_capacity_to_repr(V));
+        if which == 1 {
+            let i = any_below(V);
+            assert!(m[i] == data[i]);
+        }
+        end_reached!();
+    }
+}
+
 // ================================================================================== try_reclaim / reserve: inline-Vec form
 counting! {
     // @h props=C04,C02,C08,C13,C16,C18 tier=quick flags=leak group=step note=try_reclaim(additional_over_all_usize)_inline_vec_form
@@ -169,6 +220,7 @@ counting! {
             let ev0 = alloc_events();
             let ok = m.try_reclaim(add);
             assert!(alloc_events() == ev0); // never allocates, frees or reallocates
+            inv_bm(&m, &g);
             if ok {
                 assert!(m.capacity() - m.len() >= add);
                 content_is(&m, &g);
@@ -203,6 +255,7 @@ counting! {
             assert!(m.capacity() - m.len() >= add);
             content_is(&m, &g);
             region_ok(&m);
+            inv_bm(&m, &g);
             end_reached!();
         }
     }
@@ -261,6 +314,7 @@ counting! {
             let ok = m.try_reclaim(add);
             assert!(alloc_events() == ev0);
             assert!(cnt(&g) == g.r);
+            inv_bm(&m, &g);
             if ok {
                 assert!(m.capacity() - m.len() >= add);
                 content_is(&m, &g);
@@ -303,6 +357,7 @@ counting! {
             assert!(m.capacity() - m.len() >= add);
             content_is(&m, &g);
             region_ok(&m);
+            inv_bm(&m, &g);
             finish_arc(&g, 1);
             end_reached!();
         }
@@ -452,6 +507,8 @@ macro_rules! split_family {
                 }
                 split_post(&m, &other);
                 assert!(m.kind() == KIND_ARC && other.kind() == KIND_ARC && m.data == other.data);
+                inv_bm(&m, &g);
+                inv_bm(&other, &g);
                 let sh = m.data;
                 let now = (*sh).ref_count.load(Ordering::Relaxed);
                 if $counted {
@@ -573,6 +630,7 @@ macro_rules! inplace_family {
                     assert!(m[i] == g.data[g.off + lo + i]);
                 }
                 region_ok(&m);
+                inv_bm(&m, &g);
                 // nothing outside the handle's own region was written
                 outside_unchanged(&g, g.off, g.off + g.cap);
                 if $counted {
@@ -626,6 +684,7 @@ pub fn arc_unsplit() {
         if a.data == g.sh {
             // a is still on the shared buffer; b's reference was given back
             assert!(cnt(&g) == g.r - 1);
+            inv_bm(&a, &g);
             finish_arc(&g, 1);
         } else {
             // a had to move to its own buffer (copy path with growth): both references were given back
